@@ -371,6 +371,12 @@ fn boundary_table() -> Vec<String> {
             v.push(format!("{m}e+{e}"));
         }
     }
+    // zero-padded and over-long exponent parts
+    for m in ["1", "2.5", ".5", "25"] {
+        for e in ["e00001", "e+0001", "E-0003", "e+00023", "e000000000000000001", "e+1000", "E-01000", "e0000", "e00"] {
+            v.push(format!("{m}{e}"));
+        }
+    }
     for s in [
         "1e", "1e+", "1e+x", "1ex", "1e5x", "1d", "12abcz", "1..2", "1.2.3", "1.e5", ".5e", "0x", "00x", "0fx", "1_000",
         "1e5e5", "1x1", "9fx", "0fg", "1.5x", "1e1x", "0e0", "0e", "00", "1.", "1.x", "1 x", "0ffffffffffffffffx",
